@@ -4,3 +4,14 @@ From LV Require Import Base.Cart.
 Theorem C01_cart_index : forall k l m d, nth (nindex l m) (cart (k + l + m)) d = (k, l, m).
 Proof. exact cart_index. Qed.
 Print Assumptions C01_cart_index.
+
+(* makeC (the shift of a Cartesian Gaussian to the ECP frame): the coefficients the shell-pair model computes,
+   calcC(a,m,A) = (-1)^(a-m) A^(a-m) a!/(m!(a-m)!), are those of the shifted monomial: sum_m calcC(a,m,A) x^m = (x - A)^a,
+   for every a and every A, x.  The shell-pair model itself (ShellPair/ShellPairModel.v: type 1, the three type-2
+   branches, rolled_up / rolled_up_special, the mu sum) is tied to ecpint.cpp and qgen.cpp by the K-a correspondence. *)
+From Coq Require Import Reals.
+From LV Require Import Base.NumOps Base.RInst ShellPair.ShellPairModel ShellPair.ShellPairProofs.
+Theorem C01_makeC_binomial : forall a A x,
+  sum_f_R0 (fun m => Rmult (calcC ROps a m A) (pow x m)) a = pow (Rminus x A) a.
+Proof. exact makeC_binomial. Qed.
+Print Assumptions C01_makeC_binomial.
